@@ -17,7 +17,9 @@
   The predicates (`SpEmitted` … `StackArgOffsetAbi`) and the ABI table are the specification: `FalconModel/Abi.lean`.
 
   One theorem per architecture and clause, so that a theorem that stops elaborating names the architecture and
-  the field.  All by `decide` (kernel evaluation; no axioms).
+  the field.  All by `decide` (kernel evaluation of the `Decidable` instances of `FalconModel/Abi.lean`; axioms: at
+  most `propext`, `Quot.sound`, which core's list/string decidability lemmas use).  `Holds` (the conjunction of
+  the clauses) is defined in `FalconModel/Abi.lean`, the one helper lemma in `FalconProofs/C20/Lemmas.lean`.
 
   PARTIAL (one clause, two architectures — recorded finding C20/aarch64/args, C20/aarch64eb/args):
     full statement   theorem aarch64_args_in_abi_order   : ArgsInAbiOrder Arch.aarch64   (aapcs64 "little")
@@ -29,6 +31,7 @@
     ABI's integer sequence in order followed by exactly the ABI's SIMD sequence in order.
 -/
 import FalconModel.Abi
+import FalconProofs.C20.Lemmas
 import Generated.Arch
 
 namespace Falcon.C20
@@ -323,17 +326,6 @@ theorem aarch64eb_stack_arg_offset_abi : StackArgOffsetAbi Arch.aarch64eb (aapcs
 
 
 /-! ### All seven at once (from the theorems above) -/
-
-/-- every clause for one architecture; the argument clause in the form that holds for all seven
-    (`ArgsIntThenFp`, which IS `ArgsInAbiOrder` wherever the ABI table has no SIMD sequence) -/
-def Holds (d : ArchDesc) (a : AbiSpec) : Prop :=
-  SpEmitted d ∧ SpAbi d a ∧ WordSizeAgrees d a ∧ EndianAgrees d a ∧ CcRegsEmitted d ∧
-  PreservedTrashedDisjoint d ∧ SpPreserved d ∧ ArgsIntThenFp d a ∧ ReturnRegAbi d a ∧ ReturnAddrAbi d a ∧
-  StackArgLenIsWord d a ∧ StackArgOffsetAbi d a
-
-theorem argsIntThenFp_of_inAbiOrder {d : ArchDesc} {a : AbiSpec} (h : a.fpArgs = [])
-    (h' : ArgsInAbiOrder d a) : ArgsIntThenFp d a := by
-  unfold ArgsIntThenFp; rw [h, List.append_nil]; exact h'
 
 /-- PARTIAL only in the argument clause of aarch64/aarch64eb (see the header): for every architecture of the
     regenerated table there is the ABI the driver judges it by, and every clause of the property holds -/
